@@ -342,7 +342,7 @@ def machine_shard(seed: int, examples: int, steps: int, known: list[str]) -> dic
 def run(ctx: Ctx) -> None:
     known = sorted(ctx.known_keys())
     n = ncpu()
-    ex = 40 if ctx.quick else 500
+    ex = 150 if ctx.quick else 800
     merge_parts(ctx, pmap(machine_shard, [(ctx.seed * 1000 + k, ex, 45, known) for k in range(n)]))
     ctx.assumptions.append("stepped virtual clock on a 1/64 s grid: float/datetime/SQLite REAL comparisons at a limit are exact, the model demands the documented side of >= / > without tolerance")
     ctx.assumptions.append("lost races are injected at a chosen point: the owner's next transition is issued between the scan yielding an id and the recovery transition for it")
